@@ -115,9 +115,12 @@ func Access(x any, field, site string, write bool) {
 		return
 	}
 	s := cur
+	if s == nil {
+		return // teardown: the scheduler is off and thread identities are gone; only scheduled executions are judged
+	}
 	g := goid()
 	name := fmt.Sprintf("goroutine#%d", g)
-	if s != nil {
+	{
 		s.mu.Lock()
 		if th := s.byGoid[g]; th != nil {
 			name = th.name
